@@ -426,6 +426,7 @@ static void *task_fn(void *arg) {
     rec_t *r = arg;
     sched(ST_RUN);
     EV("task_start %d %d", r->id, r->val);
+    for (int i = 0; i < r->val % 4; i++) sched(ST_RUN);     /* tasks of different lengths */
     sched(ST_RUN);
     EV("task_end %d", r->id);
     return NULL;
